@@ -7,6 +7,9 @@ CONSTANTS
   RawLen = 3
   Depths = {3}
   Ladders = {3}
+  MacroCloses = {}
+  SnipDeeps = {}
+  FileChains = {}
   Devs = {}
 INVARIANTS EmitRows
 CHECK_DEADLOCK FALSE
